@@ -34,7 +34,7 @@ where
     }
 
     pub fn clear(&mut self) {
-        self.root_mut().take();
+        drop_iteratively(self.root_mut().take());
         self.size = 0;
     }
 
@@ -389,6 +389,32 @@ impl<K, V> DoubleEndedIterator for IntoIter<K, V> {
 }
 
 impl<K, V> ExactSizeIterator for IntoIter<K, V> {}
+
+impl<K, V> Drop for IntoIter<K, V> {
+    fn drop(&mut self) {
+        drop_iteratively(self.cur.take());
+    }
+}
+
+/// Tears down a tree without recursion: the default drop glue of `Box<Node>` recurses once per
+/// level, which overflows the stack for degenerate (list-shaped) trees.
+fn drop_iteratively<K, V>(root: Option<Box<Node<K, V>>>) {
+    let mut cur = root;
+    while let Some(mut node) = cur {
+        match node.pop_left() {
+            Some(mut left) => {
+                // rotate right, so that the left spine gets shorter
+                node.left = left.pop_right();
+                left.right = Some(node);
+                cur = Some(left);
+            }
+            None => {
+                // `node` has no left child: detach the right subtree and drop the node alone
+                cur = node.pop_right();
+            }
+        }
+    }
+}
 
 /// Performs a top-down splay operation on a tree rooted at `node`. This will
 /// modify the pointer to contain the new root of the tree once the splay
